@@ -920,6 +920,15 @@ class C18Executor(Executor):
             _ast.copy_location(t, s)
             _ast.fix_missing_locations(t)
             return self.s_Try(t, st)
+        if kind == "closing":
+            res = item.context_expr.args[0]
+            pre = [] if item.optional_vars is None else [_ast.Assign(targets=[item.optional_vars], value=res)]
+            fin = _ast.Expr(value=_ast.Call(func=_ast.Attribute(value=res, attr="close", ctx=_ast.Load()), args=[], keywords=[]))
+            t = _ast.Try(body=s.body, handlers=[], orelse=[], finalbody=[fin])
+            stmts = pre + [t]
+            for x in stmts:
+                _ast.fix_missing_locations(_ast.copy_location(x, s))
+            return self.exec_block(stmts, st)
         if kind == "generator":
             return self.with_generator(s, st, item)
         return super().s_With(s, st)
@@ -927,6 +936,9 @@ class C18Executor(Executor):
     def _with_kind(self, e, st):
         if isinstance(e, _ast.Call) and self.canonical_name(e.func) == "contextlib.suppress":
             return "suppress"
+        if isinstance(e, _ast.Call) and self.canonical_name(e.func) == "contextlib.closing" and len(e.args) == 1 and not e.keywords \
+                and isinstance(e.args[0], _ast.Name):
+            return "closing"       # `with closing(x) [as v]: B` == `[v = x]; try: B finally: x.close()` (x a plain name)
         if self.contextmanager_generator(e, st) is not None:
             return "generator"
         return None
